@@ -43,7 +43,7 @@ Section TwoChunk.
   Lemma exec_in_S : forall f o, in_S f -> in_alpha o -> in_S (exec_op f o).
   Proof.
     intros f o Hf Ho. unfold in_S.
-    destruct Ho as [-> | [-> | [-> | ->]]]; simpl.
+    destruct Ho as [-> | [-> | [-> | ->]]]; cbn [exec_op].
     - auto.
     - rewrite write_at_0.
       destruct Hf as [-> | [-> | [-> | ->]]].
@@ -53,7 +53,7 @@ Section TwoChunk.
       + rewrite skipn_app, skipn_all, Nat.sub_diag. simpl. auto.
     - destruct Hf as [-> | [-> | [-> | ->]]].
       + rewrite write_at_beyond by (simpl; lia). cbn [length List.app]. rewrite ?Nat.sub_0_r. auto.
-      + rewrite write_at_beyond by lia. rewrite Nat.sub_diag. simpl. auto.
+      + rewrite write_at_beyond by (apply Nat.le_refl). rewrite Nat.sub_diag. simpl. auto.
       + rewrite <- Z_len. rewrite write_at_over by lia. auto.
       + rewrite write_at_over by lia. auto.
     - rewrite write_at_0.
@@ -93,13 +93,16 @@ Section TwoChunk.
 
   Lemma save_alpha : forall p, is_save a p -> Forall in_alpha p.
   Proof.
-    intros p [-> | ->]; unfold save_two, save_one, writer, serialize; simpl;
-      repeat constructor; unfold in_alpha; fold H; fold D; auto.
-    rewrite Nat.add_0_l. auto.
+    intros p [-> | ->]; unfold save_two, save_one, writer, serialize; cbn [writer_ops].
+    - constructor; [left; reflexivity|].
+      constructor; [right; left; reflexivity|].
+      constructor; [right; right; left; reflexivity|constructor].
+    - constructor; [left; reflexivity|].
+      constructor; [right; right; right; reflexivity|constructor].
   Qed.
 
   Hypothesis Hwf : wf_arr a.
-  Hypothesis Hh : hlen (shape a) < 65536.
+  Hypothesis Hh : hlen (shape a) / 256 < 256.
 
   Lemma in_S_safe : forall f, in_S f -> safe_read a f.
   Proof.
@@ -142,7 +145,7 @@ Definition wit_gap : arr :=
    different array (a zero gap). *)
 Theorem three_chunk_interleaving_refuted :
   exists (a : arr) (k : nat) (sched : list nat) (f : file) (b : arr),
-    wf_arr a /\ hlen (shape a) < 65536 /\
+    wf_arr a /\ hlen (shape a) / 256 < 256 /\
     In f (observed [save_three a k; save_three a k] [] sched) /\
     parse f = POk b /\ b <> a.
 Proof.
@@ -176,7 +179,7 @@ Qed.
 
 (* every crash point of a save is such a fault *)
 Corollary crash_point_outcome : forall m right fits unp a k,
-  wf_arr a -> hlen (shape a) < 65536 -> k < length (serialize a) ->
+  wf_arr a -> hlen (shape a) / 256 < 256 -> k < length (serialize a) ->
   load_outcome m right fits unp (firstn k (serialize a)) =
     (if k =? 0 then Exception else if catches_value_error m then Fresh else Exception).
 Proof.
